@@ -45,6 +45,8 @@ enum U {
     ErrMut { file: usize, lo: usize, hi: usize },
     /// garbage: all token strings of length `len` starting with alphabet token `first`
     Garbage { len: usize, first: usize },
+    /// structured families (products of small menus), texts lo..hi of `family_texts`
+    Family { lo: usize, hi: usize },
 }
 
 fn alpha(full: bool) -> &'static [&'static str] {
@@ -91,6 +93,154 @@ fn plan(tier: Tier) -> &'static Vec<U> {
         if tier == Tier::Thorough {
             for first in 0..a {
                 v.push(U::Garbage { len: 3, first });
+            }
+        }
+        // appended last so that the unit numbers of the older families do not change
+        let n = family_texts(tier).len();
+        let mut lo = 0;
+        while lo < n {
+            let hi = (lo + CHUNK).min(n);
+            v.push(U::Family { lo, hi });
+            lo = hi;
+        }
+        v
+    })
+}
+
+/// Structured families: complete products of small menus around constructs whose analysis has more than one
+/// stage looking at the same declaration (a rejected declaration that later stages still find, two parameters of
+/// one name, generic payloads instantiated to void, deep nesting). (origin, description, text)
+fn family_texts(tier: Tier) -> &'static Vec<(String, String, String)> {
+    static P: [OnceLock<Vec<(String, String, String)>>; 2] = [OnceLock::new(), OnceLock::new()];
+    P[tier.pick(0, 1)].get_or_init(|| {
+        let mut v: Vec<(String, String, String)> = vec![];
+        // --- F-params: three parameter slots x body x call
+        let params = ["a", "a: int", "b", "a = 1", "b = 3", "b: int = 3"];
+        let calls = ["f(1)", "f(1, 2)", "f(1, 2, 3)", "f(a = 1)", "f(b = 2, a = 1)", "f()"];
+        for p1 in params {
+            for p2 in params {
+                for p3 in params {
+                    for body in ["a", "b"] {
+                        for call in calls {
+                            v.push(("family/params".into(), format!("fn f({p1}, {p2}, {p3}) = {body} ; {call}"), format!("fn f({p1}, {p2}, {p3}) = {body}\n{call}\n")));
+                        }
+                    }
+                }
+            }
+        }
+        // --- F-impl: implementation target x interface x use of a value of the target type
+        let targets: [(&str, &str); 10] = [
+            ("Bag<int>", "Bag([1])"),
+            ("Bag<T>", "Bag([1])"),
+            ("Bag", "Bag([1])"),
+            ("Mono", "Mono(1)"),
+            ("Mono<int>", "Mono(1)"),
+            ("int", "1"),
+            ("Nope", "1"),
+            ("array<Mono>", "[Mono(1)]"),
+            ("(int, Mono)", "(1, Mono(1))"),
+            ("option<Mono>", "option.some(Mono(1))"),
+        ];
+        let ifaces: [(&str, &str); 10] = [
+            ("Iterable", "  fn make_iterator(self) -> ArrayIterator<int> {\n    ArrayIterator([1], 0)\n  }\n"),
+            ("Iterator", "  fn next(self) -> option<int> = option.none\n"),
+            ("Unwrap", "  fn unwrap(self) -> int {\n    1\n  }\n"),
+            ("Try", "  fn branch(self) -> ControlFlow<void, int> {\n    .Continue(1)\n  }\n  fn from_residual(r: void) -> TARGET {\n    VALUE\n  }\n"),
+            ("Index", "  fn index_get(self, index: int) -> int {\n    1\n  }\n  fn index_set(self, index: int, val: int) -> void {\n    nil\n  }\n"),
+            ("ToString", "  fn str(s) = \"x\"\n"),
+            ("Equal", "  fn equal(a, b) = true\n"),
+            ("Num", "  fn add(a, b) = a\n  fn subtract(a, b) = a\n  fn multiply(a, b) = a\n  fn divide(a, b) = a\n  fn power(a, b) = a\n"),
+            ("Nope2", "  fn zz(self) -> int = 1\n"),
+            ("Unwrap", ""),
+        ];
+        let uses = [
+            "",
+            "for x in v {\n  x\n}\n",
+            "v!\n",
+            "fn q() -> option<int> {\n  let r = v?\n  option.some(1)\n}\nq()\n",
+            "v[0]\n",
+            "v[0] = 1\n",
+            "\"\" .. v\n",
+            "v == v\n",
+            "v + v\n",
+            "v.str()\n",
+        ];
+        for (t, val) in targets {
+            for (ifn, ib) in ifaces {
+                for u in uses {
+                    let body = ib.replace("TARGET", t).replace("VALUE", val);
+                    let text = format!("type Bag<T> = {{\n  items: array<T>\n}}\ntype Mono = {{\n  v: int\n}}\nimplement {ifn} for {t} {{\n{body}}}\nlet v = {val}\n{u}");
+                    v.push(("family/impl".into(), format!("implement {ifn} for {t}{} ; use `{}`", if ib.is_empty() { " (no methods)" } else { "" }, u.lines().next().unwrap_or("")), text));
+                }
+            }
+        }
+        // --- F-voidpat: generic payloads instantiated to void x all arm lists of length <= 3
+        let scruts: [(&str, &str, Vec<&str>); 4] = [
+            ("result<void, string>", "fn mk() -> result<void, string> {\n  .ok(nil)\n}\nlet s = mk()\n", vec![".ok(_)", ".ok(x)", ".err(_)", ".err(e)", "_"]),
+            ("option<void>", "let s: option<void> = option.some(nil)\n", vec![".some(_)", ".some(x)", ".none", "_", "y"]),
+            ("Bx<void>", "type Bx<T> = Fu(T) | Em | Tw(T, int)\nlet s: Bx<void> = Bx.Fu(nil)\n", vec![".Fu(_)", ".Em", ".Tw(_, 1)", ".Tw(x, n)", "_"]),
+            ("(void, option<void>)", "let s = (nil, option.some(nil))\n", vec!["(_, .some(_))", "(_, .none)", "(x, _)", "_", "(_, .some(y))"]),
+        ];
+        for (tn, pre, pats) in &scruts {
+            let mut lists: Vec<Vec<&str>> = vec![];
+            for a in pats {
+                lists.push(vec![a]);
+                for b in pats {
+                    lists.push(vec![a, b]);
+                    for c in pats {
+                        lists.push(vec![a, b, c]);
+                    }
+                }
+            }
+            for l in lists {
+                let arms: String = l.iter().enumerate().map(|(i, p)| format!("  {p} -> {i}\n")).collect();
+                v.push(("family/voidpat".into(), format!("match on {tn}: {}", l.join(" ; ")), format!("{pre}let r = match s {{\n{arms}}}\n")));
+            }
+        }
+        // --- F-nest: one construct nested to depth d (termination in time and stack)
+        let shapes: [(&str, &str, &str); 27] = [
+            ("(a = ", "1", ")"),
+            ("(", "1", ")"),
+            ("[", "1", "]"),
+            ("{\n", "1", "\n}"),
+            ("f(", "1", ")"),
+            ("f(a = ", "1", ")"),
+            ("(x) -> ", "1", ""),
+            ("x -> ", "1", ""),
+            ("(x = ", "1", ") -> 1"),
+            ("-", "x", ""),
+            ("not ", "x", ""),
+            ("if true {\n", "1", "\n}"),
+            ("if ", "true", " {\n1\n}"),
+            ("match 1 {\n_ -> ", "1", "\n}"),
+            ("match ", "1", " {\n_ -> 1\n}"),
+            ("a.b(", "1", ")"),
+            ("(a, ", "1", ")"),
+            ("a[", "1", "]"),
+            ("1 + (", "1", ")"),
+            ("fn g() {\n", "1", "\n}"),
+            ("task {\n", "1", "\n}"),
+            ("while true {\n", "1", "\n}"),
+            ("for i in ", "1", " {\n1\n}"),
+            ("let a: array<", "int", "> = 1"),
+            ("let a: (", "int", ", int) = 1"),
+            ("match 1 {\n.some(", "x", ") -> 1\n}"),
+            ("match 1 {\n(", "x", ", 1) -> 1\n}"),
+        ];
+        let depths: &[usize] = if tier == Tier::Quick { &[4, 8, 16, 32, 64] } else { &[4, 8, 12, 16, 20, 24, 32, 48, 64, 96, 128] };
+        for (open, core, close) in shapes {
+            for &d in depths {
+                // type and pattern nests repeat only the bracket part
+                let (pre, o, c, post): (&str, &str, &str, &str) = if let Some(r) = open.strip_prefix("let a: ") {
+                    ("let a: ", r, if close.starts_with('>') { ">" } else { ", int)" }, " = 1")
+                } else if let Some(r) = open.strip_prefix("match 1 {\n") {
+                    if open.ends_with("-> ") { ("", open, close, "") } else { ("match 1 {\n", r, if close.starts_with(')') { ")" } else { ", 1)" }, " -> 1\n}") }
+                } else {
+                    ("", open, close, "")
+                };
+                let c_eff = if pre.is_empty() { close } else { c };
+                let text = format!("{pre}{}{core}{}{post}\n", o.repeat(d), c_eff.repeat(d));
+                v.push(("family/nest".into(), format!("`{}` nested {d} deep", open.replace('\n', " ")), text));
             }
         }
         v
@@ -332,6 +482,16 @@ impl Prop for C04 {
             U::Dev2 { file, first } => run_dev2(out, file, first),
             U::ErrMut { file, lo, hi } => run_errmut(out, file, lo, hi),
             U::Garbage { len, first } => run_garbage(out, len, first),
+            U::Family { lo, hi } => {
+                let all = family_texts(tier);
+                for k in lo..hi {
+                    if !out.begin_case((k - lo) as u64) {
+                        continue;
+                    }
+                    let (origin, desc, text) = &all[k];
+                    judge(out, origin, desc, text, false);
+                }
+            }
         }
         if let (Some(a), Some(b)) = (c0, tu::thread_cpu_s()) {
             out.count("cpu_ms", ((b - a) * 1000.0) as i64);
@@ -350,7 +510,9 @@ impl Prop for C04 {
              ({} raw mutants in closed form; texts that repeat an earlier mutant of the same file are skipped and counted){}; \
              plus, for the same files, every single ERROR mutation at every site (C33's kinds: undefined name, unknown field, literal of another type, deleted arm, assignment to a let, dropped / added / unknown named call argument, bad escape; \
              and the semantic kinds: `x = x` after the line and inside the next block of every name, `x[0] += 1`, postfix `? ! .zz [0] () (zz = 0) = 0` on every identifier, break / continue / return after every line); \
-             plus every token string of length ≤ {} over the {}-token alphabet. \
+             plus every token string of length ≤ {} over the {}-token alphabet; \
+             plus {} texts of four structured product families: params (6^3 parameter lists incl. repeated names and defaults × 2 bodies × 6 calls), impl (10 implementation targets incl. instantiated / unknown / non-generic types × 10 interface bodies × 10 uses of a value of that type), \
+             voidpat (4 scrutinee types whose generic payload is void × all arm lists of length ≤ 3 over 5 patterns), nest (27 bracketing constructs nested to each depth of a fixed list up to 64 / 128). \
              Each text: check (always) and compile_bytecode (whenever check accepts, and on identity + all prefixes) must return Ok or a non-empty rendered diagnostic, without panic, within {SLOW_S} s. \
              Non-trivial = the text has ≥ 2 tokens that are not blanks/comments (distinct by text hash)",
             c.len(),
@@ -369,6 +531,7 @@ impl Prop for C04 {
             },
             tier.pick(2, 3),
             ALPHA_CORE.len(),
+            family_texts(tier).len(),
         )
     }
     fn assumptions(&self) -> Vec<String> {
